@@ -486,6 +486,18 @@ func init() {
 		ch.buf = nb
 		return mkBool(true)
 	})
+	// time.NewTicker: the channel of the ticker has a tick pending or not by symbolic choice each time a select looks
+	// at it (at most 3 ticks per path); Stop and Reset do nothing
+	reg("time.NewTicker", func(e *Exec, c *frame, fn *ssa.Function, a []Value) Value {
+		e.intrHit["time.NewTicker-symbolic-ticks"]++
+		st := zero(fn.Signature.Results().At(0).Type().Underlying().(*types.Pointer).Elem()).(Struct)
+		st[0] = &Chan{ticker: true, ticks: 3}
+		cell := new(Value)
+		*cell = st
+		return cell
+	})
+	reg("(*time.Ticker).Stop", func(e *Exec, c *frame, fn *ssa.Function, a []Value) Value { return nil })
+	reg("(*time.Ticker).Reset", func(e *Exec, c *frame, fn *ssa.Function, a []Value) Value { return nil })
 	// time.After inside a select that also waits for data: the timer case is listed last and fires only when no other
 	// case is ready (quiescence), which is how the harnesses use it
 	reg("time.After", func(e *Exec, c *frame, fn *ssa.Function, a []Value) Value {
